@@ -396,12 +396,9 @@ func (w *vkWorld) runOnce(cs vkCase) vkResult {
 	res.F1 = pl.Failures()
 	vkJudgeStore(&res, "after the client query ("+a.outcome()+")", res.F1, zone, qname, allFailed, local)
 
-	// follow-up: another name of the same zone, from a client with no local problem
-	pl2 := pl
-	if cs.Mode == "budget" || cs.Mode == "deadline" {
-		pl2 = pl // same pipeline instance = same shared state; the follow-up has its own fresh budget
-	}
-	f := w.ask(pl2, "b."+zone, h_rpipe.AskOpt{})
+	// follow-up: another name of the same zone, asked of the same pipeline instance (= the same shared
+	// state) by a client that is not cancelled and has its own fresh budget
+	f := w.ask(pl, "b."+zone, h_rpipe.AskOpt{})
 	res.Follow = &f
 	res.F2 = pl.Failures()
 	if f.Returned {
@@ -416,7 +413,7 @@ func (w *vkWorld) runOnce(cs vkCase) vkResult {
 		}
 	}
 	// sibling zone: never affected
-	s := w.ask(w.pipeFor(pl2, cs), "a.sib.t.", h_rpipe.AskOpt{})
+	s := w.ask(pl, "a.sib.t.", h_rpipe.AskOpt{})
 	res.Sibling = &s
 	if s.Returned && (s.fromCache() || (s.Rcode != dns.RcodeSuccess && s.Latched == "" && cs.Mode != "deadline")) {
 		res.Viol = append(res.Viol, vkViol{"sibling-suppressed", fmt.Sprintf("a name of the healthy sibling zone sib.t. was answered %s (%d upstream packets) after the failure in %s; store %s", s.outcome(), s.Packets, zone, vkFailStr(pl.Failures()))})
@@ -445,8 +442,6 @@ func (w *vkWorld) runOnce(cs vkCase) vkResult {
 	}
 	return res
 }
-
-func (w *vkWorld) pipeFor(pl *h_rpipe.Pipeline, cs vkCase) *h_rpipe.Pipeline { return pl }
 
 func (w *vkWorld) run(cs vkCase) vkResult {
 	for try := 0; ; try++ {
